@@ -36,11 +36,11 @@ def gen_cases(tier, seed):
     for i in range(n):
         base = {'l': int(rng.integers(2, 9)), 'freq': float(10 ** rng.uniform(-6, -3)), 'R': float(10 ** rng.uniform(5.8, 7.3)), 'rho': float(rng.uniform(2500, 9000)),
                 'mag': float(10 ** rng.uniform(7.5, 11.3)), 'ang': float(rng.uniform(0.1, 40)), 'Kfac': float(10 ** rng.uniform(0.3, 2.5)), 'sub': i, 'seed': seed}
-        for fam in ('tak_static', 'tak_dynamic', 'kam_static', 'kam_dynamic'):
+        for fam in ('tak_static', 'tak_dynamic', 'kam_static', 'kam_dynamic', 'kam_dynamic_incomp'):
             cases.append(dict(base, mon='subspace', fam=fam, r0f=float(10 ** rng.uniform(-3, math.log10(0.5)))))
-        cases.append(dict(base, mon='subspace_liquid', fam=['kam', 'tak'][i % 2], r0f=float(10 ** rng.uniform(-3, -0.1)), freq=float(10 ** rng.uniform(-4, -2.3))))
-        cases.append(dict(base, mon='r0sweep', fam=['tak_static', 'tak_dynamic', 'kam_static', 'kam_dynamic', 'liq_static_core', 'liq_dynamic_core', 'liq_dynamic_core_tak'][i % 7],
-                          freq=base['freq'] if i % 7 < 5 else float(10 ** rng.uniform(-3.5, -2.3))))
+        cases.append(dict(base, mon='subspace_liquid', fam=['kam', 'tak'][i % 2], incomp=bool(i % 4 == 2), r0f=float(10 ** rng.uniform(-3, -0.1)), freq=float(10 ** rng.uniform(-4, -2.3))))
+        cases.append(dict(base, mon='r0sweep', fam=['tak_static', 'tak_dynamic', 'kam_static', 'kam_dynamic', 'liq_static_core', 'liq_dynamic_core', 'liq_dynamic_core_tak', 'liq_dynamic_incomp_core', 'kam_dynamic_incomp'][i % 9],
+                          freq=base['freq'] if i % 9 not in (5, 6, 7) else float(10 ** rng.uniform(-3.5, -2.3))))
         for _ in range(3):
             cases.append(dict(base, mon='liquid_span', r0f=float(10 ** rng.uniform(-4, math.log10(0.5))), freq=float(10 ** rng.uniform(-4.3, -2)),
                               Kliq=float(10 ** rng.uniform(9.5, 12))))
@@ -134,9 +134,9 @@ def eval_case(c):
 
     if mon == 'subspace':
         fam = c['fam']
-        kam, static = fam.startswith('kam'), fam.endswith('static')
+        kam, static, inc = fam.startswith('kam'), fam.endswith('static'), fam.endswith('incomp')
         N = 25
-        body = homog_body(R, rho, mu, K, N, c['r0f'] * R, static=static, incomp=False)
+        body = homog_body(R, rho, mu, K, N, c['r0f'] * R, static=static, incomp=inc)
         s, d = conv(body, kam, keep=True)
         if s is None:
             return inconclusive(d)
@@ -147,10 +147,11 @@ def eval_case(c):
         # Only integration end points are tested: interior slices are filled from the integrator's dense output, whose
         # interpolation error (~1e-6, not controlled by rtol; observed) would otherwise be mistaken for inexact starting vectors.
         for j in (N - 1,):
-            sc = start_vectors(0, static, False, kam, c, r[j], mu, K, 3, 6)
+            sc = start_vectors(0, static, inc, kam, c, r[j], mu, K, 3, 6)
             A = np.array([scale_solid(sc[i], r[j], mu, g[j]) for i in range(3)]).T
             b = scale_solid(y[:, j], r[j], mu, g[j])
             res = resid_in(A, b)
+            basis_cond = float(np.linalg.cond(A / np.linalg.norm(A, axis=0)))
             cnt['subspace_tests'] += 1
             if res > worst:
                 worst, worst_j = res, j
@@ -168,8 +169,8 @@ def eval_case(c):
             tak_before = max(resid_in(A0, scale_solid(T[i], r0, mu, g[0])) for i in range(3))
             tak_after = max(resid_in(A0, scale_solid(v, r0, mu, g[0])) for v in takeuchi_y6_fix(T, r0, l))
             obs.update(takeuchi_in_kamata_span=tak_before, after_y6_reassembly=tak_after)
-        tol = 1e3 * rtol + 1e-9 + 10 * d
-        obs.update(fam=fam, r0f=c['r0f'], worst_residual=worst, tol=tol, at_r_over_R=float(r[worst_j] / R), k=complex(s['love'][0][0]))
+        tol = 1e3 * rtol + 1e-9 + 10 * d + 1e-15 * basis_cond      # a nearly dependent basis amplifies rounding in the projection
+        obs.update(fam=fam, r0f=c['r0f'], basis_condition=basis_cond, worst_residual=worst, tol=tol, at_r_over_R=float(r[worst_j] / R), k=complex(s['love'][0][0]))
         if worst > tol:
             if (not kam) and tak_before > 1e-12 and tak_after < tak_before * 0.05:
                 V('takeuchi-y6-cross-index', f'{fam} r0={c["r0f"]:.3g}R: solution at the surface leaves the span of the starting vectors evaluated there (residual {worst:.3e}); the Takeuchi vectors at r0 are not regular solutions (distance {tak_before:.1e} from the Kamata span, {tak_after:.1e} after re-assembling y6 of solutions 0/1 from their own y5)', residual=worst)
@@ -183,7 +184,8 @@ def eval_case(c):
 
     if mon == 'subspace_liquid':
         kam = c['fam'] == 'kam'
-        layers = [{'type': 'liquid', 'static': False, 'incomp': False, 'ftop': 0.5, 'rho': rho, 'mu': 0j, 'K': K},
+        inc = bool(c.get('incomp', False)) and kam
+        layers = [{'type': 'liquid', 'static': False, 'incomp': inc, 'ftop': 0.5, 'rho': rho, 'mu': 0j, 'K': K},
                   {'type': 'solid', 'static': False, 'incomp': False, 'ftop': 1.0, 'rho': rho * 0.5, 'mu': mu, 'K': K}]
         body = layered_body(layers, R, c['r0f'] * 0.5 * R, 40)
         s, d = conv(body, kam, keep=True, rt=1e-9, nds=(False, True))
@@ -194,14 +196,14 @@ def eval_case(c):
         j = 39
         S = np.array([1, 1 / (rho * g[j]), 1 / (g[j] * r[j]), 1 / g[j]])
         b = y[[0, 1, 4, 5], j] * S
-        res_own = resid_in((start_vectors(1, False, False, kam, c, r[j], 0j, K, 2, 4) * S).T, b)
+        res_own = resid_in((start_vectors(1, False, inc, kam, c, r[j], 0j, K, 2, 4) * S).T, b)
         res_kam = res_own if kam else resid_in((start_vectors(1, False, False, True, c, r[j], 0j, K, 2, 4) * S).T, b)
         cnt['subspace_tests'] += 1
         tol = 1e3 * 1e-9 + 1e-8 + 10 * d
         gam = 4 * math.pi * G * rho / 3
         k2l = abs((w * w + 4 * gam - l * (l + 1) * gam ** 2 / (w * w)) / (K / rho))
         z0, ztop = k2l * r[0] ** 2, k2l * r[j] ** 2
-        obs.update(fam=c['fam'], residual_own_family=res_own, residual_kamata_plane=res_kam, tol=tol, z_at_r0=z0, z_at_top=ztop, r0_over_R=float(r[0] / R))
+        obs.update(fam=c['fam'], incompressible=inc, residual_own_family=res_own, residual_kamata_plane=res_kam, tol=tol, z_at_r0=z0, z_at_top=ztop, r0_over_R=float(r[0] / R))
         # the solution started at r0 must arrive at the top of the uniform liquid core inside the plane of regular solutions, which is
         # observed through the starting vectors evaluated there (own family; for Takeuchi also the Kamata plane, because the truncated
         # Takeuchi series (open finding) is inexact at the top whenever |k^2 r_top^2| > 3)
@@ -225,13 +227,13 @@ def eval_case(c):
                 st = fam == 'liq_static_core'
                 if r0f > 0.55:
                     continue
-                layers = [{'type': 'liquid', 'static': st, 'incomp': False, 'ftop': 0.6, 'rho': rho, 'mu': 0j, 'K': K},
+                layers = [{'type': 'liquid', 'static': st, 'incomp': 'incomp' in fam, 'ftop': 0.6, 'rho': rho, 'mu': 0j, 'K': K},
                           {'type': 'solid', 'static': False, 'incomp': False, 'ftop': 1.0, 'rho': rho * 0.5, 'mu': mu, 'K': K}]
                 body = layered_body(layers, R, r0f * R, 60, radii_by_layer=[np.linspace(r0f * R, 0.6 * R, 60), np.linspace(0.6 * R, R, 61)[1:]])
                 kam = not fam.endswith('_tak')
             else:
                 kam, static = fam.startswith('kam'), fam.endswith('static')
-                body = homog_body(R, rho, mu, K, 80, r0f * R, static=static, incomp=False)
+                body = homog_body(R, rho, mu, K, 80, r0f * R, static=static, incomp=fam.endswith('incomp'))
             s, d = conv(body, kam, nds=(False, True) if fam.startswith('liq') else (False,))
             if s is None:
                 res.append((r0f, None, d))
